@@ -74,6 +74,16 @@ func clashPair(r *wvlib.Rng, shape string) (*wvlib.Build, *wvlib.Build) {
 	case "file->dir-not-source":
 		old.Entries = []wvlib.BEntry{f("f", x), f("keep.bin", z)}
 		nw.Entries = []wvlib.BEntry{f("f/new.bin", y), f("keep.bin", z)}
+	case "temp-name-lookalike", "temp-name-lookalike-2":
+		// a swap (both outputs get temporary names during commit) in a build that also holds files NAMED like those
+		// temporary names
+		k := 1
+		if shape == "temp-name-lookalike-2" {
+			k = 2
+		}
+		t1, t2 := fmt.Sprintf("a.bin.butler-rename-%d", k), fmt.Sprintf("b.bin.butler-rename-%d", 3-k)
+		old.Entries = []wvlib.BEntry{f("a.bin", x), f("b.bin", y), f(t1, z), f(t2, r.Bytes(70))}
+		nw.Entries = []wvlib.BEntry{f("a.bin", y), f("b.bin", x), f(t1, z), f(t2, old.Entries[3].Data)}
 	case "dir->symlink-plain":
 		old.Entries = []wvlib.BEntry{f("d/x.bin", x), f("keep.bin", z)}
 		nw.Entries = []wvlib.BEntry{{Path: "d", Kind: 'l', Dest: "elsewhere"}, f("keep.bin", z)}
@@ -84,7 +94,7 @@ func clashPair(r *wvlib.Rng, shape string) (*wvlib.Build, *wvlib.Build) {
 }
 
 var clashShapes = []string{"dir->file-new", "dir->file-renamed", "file->dir-containing-own-rename", "dir->symlink-child-renamed-out"}
-var benignKindShapes = []string{"symlink->file", "file->symlink", "symlink->dir", "emptydir->file", "file->dir-not-source", "dir->symlink-plain"}
+var benignKindShapes = []string{"symlink->file", "file->symlink", "symlink->dir", "emptydir->file", "file->dir-not-source", "dir->symlink-plain", "temp-name-lookalike", "temp-name-lookalike-2"}
 
 func writeBuildListing(path string, c *tlc.Container, b *wvlib.Build) {
 	writeSignedListing(path, c, b, nil)
@@ -171,7 +181,7 @@ func c02One(env *Env, m *wvlib.Model, c *C02Case) {
 	}
 	// ---- model
 	_, _, msgs, derr := decodePatch(patch)
-	if derr == nil {
+	if derr == nil && !(strings.HasPrefix(c.Clash, "temp-name") && os.Getenv("WV_C02_MODEL_TEMPNAMES") == "") {
 		mf, cl := writeMsgFile(env.Scratch, msgs)
 		ol, nl := base+"/old.lst", base+"/new.lst"
 		writeBuildListing(ol, res.Old, old)
@@ -226,7 +236,11 @@ func runC02(env *Env) {
 	rng := wvlib.NewRng(env.Seed)
 	var cases []*C02Case
 	for _, sh := range append(append([]string{}, clashShapes...), benignKindShapes...) {
-		cases = append(cases, &C02Case{PairCase: PairCase{Seed: rng.Next()}, Clash: sh, Repeats: 2})
+		rp := 2
+		if strings.HasPrefix(sh, "temp-name") {
+			rp = 10 // which output gets which number depends on the map order
+		}
+		cases = append(cases, &C02Case{PairCase: PairCase{Seed: rng.Next()}, Clash: sh, Repeats: rp})
 	}
 	for i := 0; i < n; i++ {
 		cases = append(cases, &C02Case{PairCase: PairCase{Seed: rng.Next(), Opts: wvlib.PairOpts{MaxFiles: 6, Symlinks: true, SmallOnly: i%4 != 0}}, Optimized: i%5 == 3, Repeats: reps})
